@@ -20,7 +20,9 @@ from .lib import sd, config, header
 GROUP = ("224.224.224.245", 30490)
 NODE_ADDR = ("10.0.0.1", 30490)
 SVC_ADDR = ("10.0.0.1", 30500)
-PEERS = [("10.0.0.11", 30490), ("10.0.0.12", 30490), ("10.0.0.13", 30490), ("10.0.0.14", 30490)]
+PEERS = [("10.0.0.11", 30490), ("10.0.0.12", 30490), ("10.0.0.13", 30490), ("10.0.0.14", 30490),
+         # two link-local IPv6 peers with one address and one port on two interfaces: only the scope id differs
+         ("fe80::21", 30490, 0, 2), ("fe80::21", 30490, 0, 3)]
 NODE_NAME = "N"
 
 
